@@ -12,8 +12,9 @@
       `Less`/`None` ⇒ `FixedPointOrdering`;
     * the step budget: `steps > max_analysis_steps` is tested at the top of each iteration with a non-empty
       queue, so exactly `max + 1` iterations may run: `fpLoop` is called with `max + 1` units of fuel and
-      answers `maxSteps` when it needs more.  The backward solver has no budget in the code; the model gives
-      it fuel too and `maxSteps` then means "did not finish within the fuel" (never an answer of falcon).
+      answers `maxSteps` when it needs more.  The backward solver uses `DEFAULT_MAX_ANALYSIS_STEPS` the same
+      way (since the `fix:` commit recorded in known_findings.d/C09.json; before it the loop had no budget and
+      ran for ever on a non-monotone analysis with `force`).
   `HashMap<location, State>` is an association list (`alGet`, `alSet`).
 -/
 import FalconModel.Location
@@ -174,14 +175,17 @@ def bwdParams {S : Type} (f : Function) (A : Analysis S) : FPParams FLoc S where
   join := A.join
   cmp := A.cmp
 
-/-- `fixed_point_backward_options(analysis, function, force)`; `fuel` is the model's, not falcon's -/
-def fixedPointBackward {S : Type} (f : Function) (A : Analysis S) (force : Bool) (fuel : Nat) : FPOut FLoc S :=
+/-- `DEFAULT_MAX_ANALYSIS_STEPS` -/
+def defaultMaxSteps : Nat := 250000
+
+/-- `fixed_point_backward_options(analysis, function, force)` -/
+def fixedPointBackward {S : Type} (f : Function) (A : Analysis S) (force : Bool) : FPOut FLoc S :=
   match f.cfg.exit with
   | none => .noRoot
   | some ex =>
     match f.cfg.block ex with
     | none => .err
-    | some b => fpLoop (bwdParams f A) force fuel [] [b.lastLoc]
+    | some b => fpLoop (bwdParams f A) force (defaultMaxSteps + 1) [] [b.lastLoc]
 
 /-! ## Specification side: the least solution by Kleene iteration (an independent algorithm) -/
 
